@@ -236,6 +236,32 @@ def run(chk):
                             continue
                         tag = f"C25.higher.us[order={k},{lab}]" if k == 4 else f"C25.higher.us[order={k},nf={nf}]"
                         rule(chk, f"{tag}.quark_number.{ml}", n1[k - 1], (n2[k - 1],), k, fn, f"gamma_{ml}({where}) == 0 (scale: its second moment)")
+            elif fam == "usq":
+                # the QED-extended dispatchers carry the pure-QCD towers in their [k, 0] entries: the same rules, through these entry points (both N3LO parametrisations)
+                var = (v,) * 7 if usefh else (min(v, 19), min(v, 15), min(v, 15), min(v, 6), v % 3, v % 3, v % 3)
+                lab = f"{'fhmruvv' if usefh else 'n3lo'},nf={nf}"
+                fn = "ekore.anomalous_dimensions.unpolarized.space_like:gamma_ns_qed"
+                try:
+                    for mode, ml in ((10202, "ns-u"), (10203, "ns-d")):
+                        n1, where = at_one(lambda n: us.gamma_ns_qed((4, 2), mode, n, nf, var, usefh))
+                        n2 = us.gamma_ns_qed((4, 2), mode, Q(2), nf, var, usefh)
+                        for k in range(2, 5):
+                            rule(chk, f"C25.higher.qed[order=({k},0),{lab}].quark_number.{ml}", n1[k, 0], (n2[k, 0],), k, fn, f"gamma_{ml}({where}) == 0 at O(a_s^{k}) (scale: its second moment)")
+                    fn = "ekore.anomalous_dimensions.unpolarized.space_like:gamma_valence_qed"
+                    v1, where = at_one(lambda n: us.gamma_valence_qed((4, 2), n, nf, var, usefh))
+                    v2 = us.gamma_valence_qed((4, 2), Q(2), nf, var, usefh)
+                    for k in range(2, 5):
+                        for r in range(2):
+                            for c in range(2):
+                                rule(chk, f"C25.higher.qed[order=({k},0),{lab}].valence_number[{r},{c}]", v1[k, 0][r, c], tuple(v2[k, 0].reshape(-1)), k, fn, f"gamma_valence_qed({where}) == 0 at O(a_s^{k}) (scale: the largest second moment)")
+                    fn = "ekore.anomalous_dimensions.unpolarized.space_like:gamma_singlet_qed"
+                    g4 = us.gamma_singlet_qed((4, 2), Q(2), nf, var, usefh)
+                    for k in range(2, 5):
+                        for c in range(4):
+                            col = [g4[k, 0][r, c] for r in range(3)]
+                            rule(chk, f"C25.higher.qed[order=({k},0),{lab}].momentum.column{c}", sum(col, Q(0)), tuple(g4[k, 0].reshape(-1)), k, fn, "gluon + photon + Sigma rows of the column sum to zero at N = 2 (scale: the largest entry)")
+                except NotImplementedError:
+                    chk.ground(f"C25.higher.qed[{lab}].not_available", True, fn=fn, goal="nf not provided by the parametrisation")
             elif fam == "ut":
                 fn = "ekore.anomalous_dimensions.unpolarized.time_like:gamma_singlet"
                 t = ut.gamma_singlet((3, 0), Q(2), nf)
@@ -266,6 +292,7 @@ def run(chk):
         nv = 20 if chk.tier != "quick" else 4
         tasks = [("us", nf, False, v) for nf in (3, 4, 5, 6) for v in range(nv)] + [("us", nf, True, v) for nf in (3, 4, 5) for v in (0, 1, 2)]
         tasks += [("ut", nf, None, 0) for nf in (3, 4, 5, 6)] + [("ps", nf, None, 0) for nf in (3, 4, 5, 6)]
+        tasks += [("usq", nf, False, 0) for nf in (3, 4, 5, 6)] + [("usq", nf, True, 0) for nf in (3, 4, 5)]
         chk.parallel(tasks, worker3)
     finally:
         undo()
